@@ -37,4 +37,13 @@ void c_trace_null(void)
   __CPROVER_assert(isnull, "REACH tracer_null.non_null"); __CPROVER_assert(!isnull, "REACH tracer_null.null");
   __CPROVER_assert(0, "REACH! c_trace_null");
 }
+/* a rejected call whose argument is a null char pointer: the no-match report prints it without touching it (C18), one fatal report (C15) */
+void c_null_report(void)
+{
+  struct OBS o;
+  C18_NULL_REPORT(&o);
+  __CPROVER_assert(o.ret == 1 && vp_rep_n == 1 && vp_rep[0].sev == 0 && !vp_rep[0].msg.overflow, "[C15,C01,C10] POST null_report.the_null_argument_is_rejected_by_ne_nullptr_with_one_fatal_report");
+  __CPROVER_assert(o.x == 1 && vp_exc == 0 && !vp_terminated, "[C01,C04] POST null_report.the_fitting_call_is_then_handled_and_nothing_more_is_reported");
+  __CPROVER_assert(0, "REACH! c_null_report");
+}
 int main(void) { VP_ENTRY(); return 0; }
